@@ -92,7 +92,11 @@ func c17r1(r *R) {
 }
 
 func c17r2(r *R) {
-	match := r.method("ruleset", "RegexpMatcher", "match")
+	match := r.methodOpt("ruleset", "RegexpMatcher", "match")
+	if match == nil {
+		c17r2Inlined(r) // the private helper was merged into Match
+		return
+	}
 	atoms := map[string]string{
 		"($0.exclude != nil)": "E", "(*regexp.Regexp).MatchString($0.exclude, $1)": "EM",
 		"($0.include != nil)": "I", "(*regexp.Regexp).MatchString($0.include, $1)": "IM",
@@ -305,4 +309,34 @@ func fieldFromParam(fn *ssa.Function, field string, own, other int) bool {
 		}
 	}
 	return n > 0 && good
+}
+
+// c17r2Inlined decides Match when the include/exclude test is written inside it: one table over five atoms.
+func c17r2Inlined(r *R) {
+	Match := r.method("ruleset", "RegexpMatcher", "Match")
+	atoms := map[string]string{
+		"($0.exclude != nil)": "E", "(*regexp.Regexp).MatchString($0.exclude, $1)": "EM",
+		"($0.include != nil)": "I", "(*regexp.Regexp).MatchString($0.include, $1)": "IM",
+		"$0.inverse": "inv",
+	}
+	mm, ok := decisionTable(Match, atoms, 0, func(a map[string]bool) bool {
+		return (!(a["E"] && a["EM"]) && a["I"] && a["IM"]) != a["inv"]
+	})
+	switch {
+	case !ok:
+		r.undecided("ruleset.(*RegexpMatcher).Match", Match.Pos(), strings.Join(mm, "; "))
+	case len(mm) > 0:
+		r.bad("ruleset.(*RegexpMatcher).Match", Match.Pos(), "Match must be (no exclude rule matches and some include rule matches) XOR inverse: "+strings.Join(mm, "; "))
+	default:
+		r.ok("ruleset.(*RegexpMatcher).match", Match.Pos(), "include/exclude test written inside Match: 32 assignments agree with the specification")
+		r.ok("ruleset.(*RegexpMatcher).Match", Match.Pos(), "Match = (included and not excluded) XOR inverse")
+	}
+	inv := r.method("ruleset", "RegexpMatcher", "Inverse")
+	ps, _ := enumPaths(inv, 8, 1)
+	good := len(ps) == 1
+	if good {
+		base := ps[0].Ret[0]
+		good = ps[0].Mem[base+".include"] == "$0.include" && ps[0].Mem[base+".exclude"] == "$0.exclude" && ps[0].Mem[base+".inverse"] == "!$0.inverse"
+	}
+	r.check(good, "ruleset.(*RegexpMatcher).Inverse", inv.Pos(), "copies include and exclude, flips inverse", "Inverse must copy include and exclude and flip inverse")
 }
